@@ -45,13 +45,19 @@ CLAIMED = {
          "harness runs under the same memory checks.",
          "Programs that fail to compile (parser/lexer value stack) are outside; the construct-exactly-once shadow map of the state area was not "
          "built (double construction shows up only as a leak or a use-after-free); nsw/nuw overflow flags are not asserted (DESIGN 0.6).", '0.3'),
- 'C14': ("Kernel only: parse_int (the integer-literal reader of parser.yy, through the bison output regenerated at check time) with the real "
+ 'C14': ("Two kernels. (a) API boundary: the real zw_* entry points of libzwerg.cc with capture_errors/allocate_error (libzwergP.hh), over stubs of "
+         "the parser and the op builder that fail in every way the real ones do (runtime_error, invalid_argument, out_of_range, a non-std exception) "
+         "or succeed, and a protocol stub operator that yields, ends or throws at any pull index: NULL/false is returned exactly when the error object "
+         "is set, its message is non-empty, no exception crosses the boundary, zw_query_parse_len hands the parser exactly query_len bytes of an "
+         "exactly-sized unterminated heap buffer and reads nothing outside it, zw_query_parse the bytes before the terminator, run-time failures "
+         "surface as zw_result_next() == false, values and stacks pass through unchanged (queries 0..3 bytes, strings 0..4 bytes incl. NUL, 0..2 "
+         "results, input depth 0..2). (b) parse_int (the integer-literal reader of parser.yy, through the bison output regenerated at check time) with the real "
          "std::stoull header code over a C11 model of strtoull either yields the exact documented value in the domain of its radix or leaves a "
          "std::exception-derived error -- for all boundary literals around 2^63 / 2^64 in radix 16, 10, 8 (last 2-3 characters symbolic, with "
          "and without sign) and for short tokens (first two characters enumerated over digit x 21 character classes, further characters "
          "symbolic; 1 character quick, 2-3 characters thorough), against a reference reader written from doc/syntax.rst.",
-         "NOT covered: the lexer and parser as wholes (any byte string), the capture_errors wrappers of the C API, run-time failures through "
-         "zw_result_next, the CLI (DESIGN 0.4/7). strtoull is a model (stubs/cxxrt.c).", '0.3'),
+         "NOT covered: the lexer and parser as wholes (any byte string reaching flex/bison: never crashes, hangs, aborts), libzwerg-dw.cc entry "
+         "points, the CLI's exit status (DESIGN 0.4/7). strtoull is a model (stubs/cxxrt.c); the parser/builder/operator behind the API are stubs.", '0.3'),
  'C16': ("coverage.cc as one inductive step from an arbitrary canonical pre-state of K runs: add/remove/is_covered/is_overlap/intersect/operator+,-,== "
          "against a membership oracle with a symbolic probe address, INV (ascending, disjoint, non-adjacent, non-empty) proved inductive; all values "
          "symbolic inside a 2^6 (quick) / 2^8 (thorough) window placed at 0, around 2^32, around 2^63 and just below 2^64-1; K<=2-3 quick, 3-4 thorough.",
@@ -70,13 +76,19 @@ CLAIMED = {
          "equal to another machine's while common ones are is part of the C09 check (c09_pair/c09_triple over the same domain objects).",
          "NOT covered: iteration over the symbol table (every entry once, in order, numbered from zero) and the name/value/size/label/binding/"
          "visibility accessors -- they need a model of libdwfl/libelf, which was not built.", '0.3'),
- 'C20': ("Kernel only (clause: named constants have the value/name the headers define): for each of 17 constant families (DW_TAG, DW_AT, DW_FORM, "
+ 'C20': ("Two kernels. (a) Named constants have the value/name the headers define: for each of 17 constant families (DW_TAG, DW_AT, DW_FORM, "
          "DW_LANG, DW_INL, DW_ATE, DW_ACCESS, DW_VIS, DW_VIRTUALITY, DW_ID, DW_CC, DW_ORD, DW_DSC, DW_DS, DW_OP, DW_END, DW_DEFAULTED) the "
          "stringer of dwcst.cc (its tables regenerated through known-dwarf.awk at check time) returns, for EVERY int code, a name exactly when "
          "/usr/include/dwarf.h (parsed independently by the check) defines that code in the family, the name is the header's, the brief form is "
-         "the name without the family prefix, and no undefined code is rendered as a known name.",
-         "NOT covered: reading names back as words (vocabulary map, lexer), radix rendering of integers and %d %x %o %b, the CLI's quoted "
-         "string rendering (dump_charp), ELF constant families (DESIGN 0.4).", '0.3'),
+         "the name without the family prefix, and no undefined code is rendered as a known name. (b) Integers render in their domain's radix so that "
+         "the text reads back as the same value in the same domain: the real show() of the dec/hex/oct/bin domains (constant.cc), operator<<(mpz_class) "
+         "and unary minus (int.cc), ios_flag_saver and libstdc++'s inline flag code, over a formatting stream model, produce for every unsigned, "
+         "signed non-negative and signed negative value exactly [-] prefix digits (prefix 0x / 0 / 0b / none in full form, none in brief form; digits of "
+         "the magnitude without leading zeros, computed independently by the harness; decimal digits as an uninterpreted function of the magnitude) "
+         "and leave the stream's flags as found; every digit count for hex and oct, digit counts 1,2,31,32,33,63,64 (quick) / 1..64 (thorough) for bin. "
+         "That such a text parses back to the value and domain is the C14 literal kernel. Known finding radix_zero: zero of hex/oct/bin renders as 0.",
+         "NOT covered: reading names back as words (vocabulary map, lexer), the %d %x %o %b directives (lexer expansion), the CLI's quoted "
+         "string rendering (dump_charp), format_constant of the API; ELF constant families are under C18 (DESIGN 0.4).", '0.3'),
 }
 
 NA = {
